@@ -135,11 +135,78 @@ package packets
 //@ ensures result != nil && isfresh(result) && result.$r == 0 && result.$w == 0 && bufOK(result)
 //@ func putBuffer trusted
 
-// Properties.Pack appends the property block (length prefix + properties) to the buffer (trusted here: not yet
-// under contract; it only appends).
-//@ func (*Properties).Pack trusted
+// The writers of the property block: a property that is absent (nil) writes nothing; one that is present writes its
+// identifier and then its value in the encoding of its data type.
+//@ func propertyWriteByte mode bv
+//@ props C06
+//@ requires [C06] bufOK(w)
+//@ modifies ghost(w.$data), ghost(w.$w)
+//@ ensures [C06] bufOK(w) && (forall k int :: k < old(w.$w) ==> w.$data[k] == old(w.$data[k]))
+//@ ensures [C06] i == nil ==> w.$w == old(w.$w)
+//@ ensures [C06] i != nil ==> w.$w == old(w.$w) + 2 && w.$data[old(w.$w)] == t && w.$data[old(w.$w) + 1] == *i
+//@ func writeUint32 mode bv
+//@ props C06
+//@ requires [C06] bufOK(w)
+//@ modifies ghost(w.$data), ghost(w.$w)
+//@ ensures [C06] bufOK(w) && w.$w == old(w.$w) + 4 && w.$data[old(w.$w)] == byte(i >> 24) && w.$data[old(w.$w) + 1] == byte(i >> 16) && w.$data[old(w.$w) + 2] == byte(i >> 8) && w.$data[old(w.$w) + 3] == byte(i)
+//@ ensures [C06] forall k int :: k < old(w.$w) ==> w.$data[k] == old(w.$data[k])
+//@ func propertyWriteUint16 mode bv
+//@ props C06
+//@ requires [C06] bufOK(w)
+//@ modifies ghost(w.$data), ghost(w.$w)
+//@ ensures [C06] bufOK(w) && (forall k int :: k < old(w.$w) ==> w.$data[k] == old(w.$data[k]))
+//@ ensures [C06] i == nil ==> w.$w == old(w.$w)
+//@ ensures [C06] i != nil ==> w.$w == old(w.$w) + 3 && w.$data[old(w.$w)] == t && w.$data[old(w.$w) + 1] == byte(*i >> 8) && w.$data[old(w.$w) + 2] == byte(*i)
+//@ func propertyWriteUint32 mode bv
+//@ props C06
+//@ requires [C06] bufOK(w)
+//@ modifies ghost(w.$data), ghost(w.$w)
+//@ ensures [C06] bufOK(w) && (forall k int :: k < old(w.$w) ==> w.$data[k] == old(w.$data[k]))
+//@ ensures [C06] i == nil ==> w.$w == old(w.$w)
+//@ ensures [C06] i != nil ==> w.$w == old(w.$w) + 5 && w.$data[old(w.$w)] == t && w.$data[old(w.$w) + 1] == byte(*i >> 24) && w.$data[old(w.$w) + 2] == byte(*i >> 16) && w.$data[old(w.$w) + 3] == byte(*i >> 8) && w.$data[old(w.$w) + 4] == byte(*i)
+//@ func propertyWriteString mode bv
+//@ props C06
+//@ requires [C06] bufOK(w)
+//@ modifies ghost(w.$data), ghost(w.$w)
+//@ ensures [C06] bufOK(w) && (forall k int :: k < old(w.$w) ==> w.$data[k] == old(w.$data[k]))
+//@ ensures [C06] i == nil ==> w.$w == old(w.$w)
+//@ ensures [C06] i != nil ==> w.$w == old(w.$w) + 3 + len(i) && w.$data[old(w.$w)] == t && w.$data[old(w.$w) + 1] == byte(uint16(len(i)) >> 8) && w.$data[old(w.$w) + 2] == byte(uint16(len(i))) && (forall k int :: 0 <= k && k < len(i) ==> w.$data[old(w.$w) + 3 + k] == i[k])
+
+// Properties.Pack: the block is assembled in a scratch buffer — every field under the identifier of its property, with
+// the writer of that property's data type (MQTT 5 table 2-4) — and appended to the packet's buffer behind its length;
+// nothing that was in the packet's buffer before is changed.
+//@ func (*Properties).Pack mode bv
+//@ props C06
+//@ call propertyWriteByte#1 assert [C06] t == 1 && i == p.PayloadFormat && propKind(t) == 1
+//@ call propertyWriteUint32#1 assert [C06] t == 2 && i == p.MessageExpiry && propKind(t) == 3
+//@ call propertyWriteString#1 assert [C06] t == 3 && i == p.ContentType && (propKind(t) == 4 || propKind(t) == 5)
+//@ call propertyWriteString#2 assert [C06] t == 8 && i == p.ResponseTopic && (propKind(t) == 4 || propKind(t) == 5)
+//@ call propertyWriteString#3 assert [C06] t == 9 && i == p.CorrelationData && (propKind(t) == 4 || propKind(t) == 5)
+//@ call propertyWriteUint32#2 assert [C06] t == 17 && i == p.SessionExpiryInterval && propKind(t) == 3
+//@ call propertyWriteString#4 assert [C06] t == 18 && i == p.AssignedClientID && (propKind(t) == 4 || propKind(t) == 5)
+//@ call propertyWriteUint16#1 assert [C06] t == 19 && i == p.ServerKeepAlive && propKind(t) == 2
+//@ call propertyWriteString#5 assert [C06] t == 21 && i == p.AuthMethod && (propKind(t) == 4 || propKind(t) == 5)
+//@ call propertyWriteString#6 assert [C06] t == 22 && i == p.AuthData && (propKind(t) == 4 || propKind(t) == 5)
+//@ call propertyWriteByte#2 assert [C06] t == 23 && i == p.RequestProblemInfo && propKind(t) == 1
+//@ call propertyWriteUint32#3 assert [C06] t == 24 && i == p.WillDelayInterval && propKind(t) == 3
+//@ call propertyWriteByte#3 assert [C06] t == 25 && i == p.RequestResponseInfo && propKind(t) == 1
+//@ call propertyWriteString#7 assert [C06] t == 26 && i == p.ResponseInfo && (propKind(t) == 4 || propKind(t) == 5)
+//@ call propertyWriteString#8 assert [C06] t == 28 && i == p.ServerReference && (propKind(t) == 4 || propKind(t) == 5)
+//@ call propertyWriteString#9 assert [C06] t == 31 && i == p.ReasonString && (propKind(t) == 4 || propKind(t) == 5)
+//@ call propertyWriteUint16#2 assert [C06] t == 33 && i == p.ReceiveMaximum && propKind(t) == 2
+//@ call propertyWriteUint16#3 assert [C06] t == 34 && i == p.TopicAliasMaximum && propKind(t) == 2
+//@ call propertyWriteUint16#4 assert [C06] t == 35 && i == p.TopicAlias && propKind(t) == 2
+//@ call propertyWriteByte#4 assert [C06] t == 36 && i == p.MaximumQoS && propKind(t) == 1
+//@ call propertyWriteByte#5 assert [C06] t == 37 && i == p.RetainAvailable && propKind(t) == 1
+//@ call propertyWriteUint32#4 assert [C06] t == 39 && i == p.MaximumPacketSize && propKind(t) == 3
+//@ call propertyWriteByte#6 assert [C06] t == 40 && i == p.WildcardSubAvailable && propKind(t) == 1
+//@ call propertyWriteByte#7 assert [C06] t == 41 && i == p.SubIDAvailable && propKind(t) == 1
+//@ call propertyWriteByte#8 assert [C06] t == 42 && i == p.SharedSubAvailable && propKind(t) == 1
+//@ requires [C06] bufOK(bufw)
 //@ modifies ghost(bufw.$data), ghost(bufw.$w)
-//@ ensures bufOK(bufw) && bufw.$w >= old(bufw.$w) && (forall i int :: i < old(bufw.$w) ==> bufw.$data[i] == old(bufw.$data[i]))
+//@ loop 1 invariant bufOK(newBufw) && bufOK(bufw) && newBufw != bufw && p == old(p) && bufw.$w == old(bufw.$w) && bufw.$r == old(bufw.$r) && (forall k int :: bufw.$data[k] == old(bufw.$data[k]))
+//@ loop 2 invariant bufOK(newBufw) && bufOK(bufw) && newBufw != bufw && p == old(p) && bufw.$w == old(bufw.$w) && bufw.$r == old(bufw.$r) && (forall k int :: bufw.$data[k] == old(bufw.$data[k]))
+//@ ensures [C06] bufOK(bufw) && bufw.$r == old(bufw.$r) && bufw.$w >= old(bufw.$w) && (forall i int :: i < old(bufw.$w) ==> bufw.$data[i] == old(bufw.$data[i]))
 
 //@ func writeUint16 mode bv
 //@ props C06
@@ -165,7 +232,7 @@ package packets
 //@ loop 1 invariant bufOK(bufw)
 //@ loop 2 invariant bufOK(bufw)
 //@ modifies p.FixHeader, heap, ghost(w.$in)
-//@ abstract call Buffer).WriteTo pure
+//@ abstract call Buffer).WriteTo pure contract
 //@ call writeUTF8String#1 assert [C06] string(s) == v.Name
 //@ call Buffer.WriteByte#1 assert [C06] c == subOpts(v.Qos, v.NoLocal, v.RetainAsPublished, v.RetainHandling) && bufw.$w == at(writeUTF8String#1, bufw.$w) + 2 + len(v.Name)
 //@ call writeUTF8String#2 assert [C06] string(s) == t.Name
@@ -379,7 +446,7 @@ package packets
 //@ props C06
 //@ requires [C06] p != nil && w != nil
 //@ modifies p.FixHeader, heap, ghost(w.$in)
-//@ abstract call Buffer).WriteTo pure
+//@ abstract call Buffer).WriteTo pure contract
 //@ abstract call Properties).Pack pure
 //@ call writeUint16#1 assert [C06] i == p.PacketID && $arg0.$w == 0
 //@ call Buffer.WriteByte#1 assert [C06] p.Version == 5 && (p.Code != 0 || p.Properties != nil) && c == p.Code && bufw.$w == 2
@@ -390,7 +457,7 @@ package packets
 //@ props C06
 //@ requires [C06] p != nil && w != nil
 //@ modifies p.FixHeader, heap, ghost(w.$in)
-//@ abstract call Buffer).WriteTo pure
+//@ abstract call Buffer).WriteTo pure contract
 //@ abstract call Properties).Pack pure
 //@ call writeUint16#1 assert [C06] i == p.PacketID && $arg0.$w == 0
 //@ call Buffer.WriteByte#1 assert [C06] p.Version == 5 && (p.Code != 0 || p.Properties != nil) && c == p.Code && bufw.$w == 2
@@ -401,7 +468,7 @@ package packets
 //@ props C06
 //@ requires [C06] p != nil && w != nil
 //@ modifies p.FixHeader, heap, ghost(w.$in)
-//@ abstract call Buffer).WriteTo pure
+//@ abstract call Buffer).WriteTo pure contract
 //@ abstract call Properties).Pack pure
 //@ call writeUint16#1 assert [C06] i == p.PacketID && $arg0.$w == 0
 //@ call Buffer.WriteByte#1 assert [C06] (p.Code != 0 || p.Properties != nil) && c == p.Code && bufw.$w == 2
@@ -412,7 +479,7 @@ package packets
 //@ props C06
 //@ requires [C06] p != nil && w != nil
 //@ modifies p.FixHeader, heap, ghost(w.$in)
-//@ abstract call Buffer).WriteTo pure
+//@ abstract call Buffer).WriteTo pure contract
 //@ abstract call Properties).Pack pure
 //@ call writeUint16#1 assert [C06] i == p.PacketID && $arg0.$w == 0
 //@ call Buffer.WriteByte#1 assert [C06] p.Version == 5 && (p.Code != 0 || p.Properties != nil) && c == p.Code && bufw.$w == 2
@@ -479,7 +546,7 @@ package packets
 //@ props C06
 //@ requires [C06] p != nil && w != nil
 //@ modifies p.FixHeader, heap, ghost(w.$in)
-//@ abstract call Buffer).WriteTo pure
+//@ abstract call Buffer).WriteTo pure contract
 //@ call writeBinary#1 assert [C06] b == p.TopicName && $arg0.$w == 0 && $arg0.$r == 0
 //@ call writeUint16#1 assert [C06] (p.Qos == 1 || p.Qos == 2) && i == p.PacketID && bufw.$w == 2 + len(p.TopicName)
 //@ call Properties.Pack#1 assert [C06] p.Version == 5 && $arg0 == p.Properties && bufw.$w == 2 + len(p.TopicName) + ((p.Qos == 1 || p.Qos == 2) ? 2 : 0)
@@ -499,7 +566,7 @@ package packets
 //@ loop 1 invariant bufw.$data[0] == byte(u.PacketID >> 8)
 //@ loop 1 invariant bufw.$data[1] == byte(u.PacketID)
 //@ modifies u.FixHeader, heap, ghost(w.$in)
-//@ abstract call Buffer).WriteTo pure
+//@ abstract call Buffer).WriteTo pure contract
 //@ call writeUint16#1 assert [C06] i == u.PacketID && $arg0.$w == 0 && $arg0.$r == 0
 //@ call writeUTF8String#1 assert [C06] string(s) == topic && len(s) >= 0 && len(s) == len(topic)
 //@ call FixHeader.Pack#1 assert [C06] u.FixHeader.PacketType == 10 && u.FixHeader.Flags == 2 && u.FixHeader.RemainLength == bufw.$w - bufw.$r && bufw.$r == 0 && bufw.$data[0] == byte(u.PacketID >> 8) && bufw.$data[1] == byte(u.PacketID)
@@ -531,7 +598,7 @@ package packets
 //@ props C06
 //@ requires [C06] p != nil && w != nil
 //@ modifies p.FixHeader, heap, ghost(w.$in)
-//@ abstract call Buffer).WriteTo pure
+//@ abstract call Buffer).WriteTo pure contract
 //@ call writeUint16#1 assert [C06] i == p.PacketID && $arg0.$w == 0 && $arg0.$r == 0
 //@ call Buffer.Write#1 assert [C06] $arg1 == p.Payload && (p.Version != 5 ==> bufw.$w == 2)
 //@ call FixHeader.Pack#1 assert [C06] p.FixHeader.PacketType == 9 && p.FixHeader.Flags == 0 && p.FixHeader.RemainLength == bufw.$w - bufw.$r && bufw.$r == 0 && bufw.$data[0] == byte(p.PacketID >> 8) && bufw.$data[1] == byte(p.PacketID)
@@ -563,7 +630,7 @@ package packets
 //@ props C06
 //@ requires [C06] p != nil && w != nil
 //@ modifies p.FixHeader, heap, ghost(w.$in)
-//@ abstract call Buffer).WriteTo pure
+//@ abstract call Buffer).WriteTo pure contract
 //@ call writeUint16#1 assert [C06] i == p.PacketID && $arg0.$w == 0 && $arg0.$r == 0
 //@ call Buffer.Write#1 assert [C06] $arg1 == p.Payload && (p.Version != 5 ==> bufw.$w == 2)
 //@ call FixHeader.Pack#1 assert [C06] p.FixHeader.PacketType == 11 && p.FixHeader.Flags == 0 && p.FixHeader.RemainLength == bufw.$w - bufw.$r && bufw.$r == 0 && bufw.$data[0] == byte(p.PacketID >> 8) && bufw.$data[1] == byte(p.PacketID)
@@ -597,7 +664,7 @@ package packets
 //@ props C06
 //@ requires [C06] c != nil && w != nil
 //@ modifies c.FixHeader, heap, ghost(w.$in)
-//@ abstract call Buffer).WriteTo pure
+//@ abstract call Buffer).WriteTo pure contract
 //@ call Buffer.WriteByte#3 assert [C06] $arg1 == c.Code && bufw.$w == 1 && bufw.$r == 0 && bufw.$data[0] == (c.SessionPresent ? 1 : 0)
 //@ call FixHeader.Pack#1 assert [C06] c.FixHeader.PacketType == 2 && c.FixHeader.Flags == 0 && c.FixHeader.RemainLength == bufw.$w - bufw.$r && bufw.$r == 0 && bufw.$data[0] == (c.SessionPresent ? 1 : 0) && bufw.$data[1] == c.Code
 //@ call FixHeader.Pack#1 assert [C06] c.Version != 5 ==> c.FixHeader.RemainLength == 2
@@ -629,7 +696,7 @@ package packets
 //@ props C06
 //@ requires [C06] d != nil && w != nil
 //@ modifies d.FixHeader, heap, ghost(w.$in)
-//@ abstract call Buffer).WriteTo pure
+//@ abstract call Buffer).WriteTo pure contract
 //@ call FixHeader.Pack#1 assert [C06] (d.Version == 3 || d.Version == 4) && d.FixHeader.PacketType == 14 && d.FixHeader.Flags == 0 && d.FixHeader.RemainLength == 0
 //@ call Buffer.WriteByte#1 assert [C06] $arg1 == d.Code && (d.Code != 0 || d.Properties != nil) && bufw.$w == 0 && bufw.$r == 0
 //@ call FixHeader.Pack#2 assert [C06] !(d.Version == 3 || d.Version == 4) && d.FixHeader.PacketType == 14 && d.FixHeader.Flags == 0 && d.FixHeader.RemainLength == bufw.$w - bufw.$r && bufw.$r == 0
@@ -659,7 +726,7 @@ package packets
 //@ props C06
 //@ requires [C06] a != nil && w != nil
 //@ modifies a.FixHeader, heap, ghost(w.$in)
-//@ abstract call Buffer).WriteTo pure
+//@ abstract call Buffer).WriteTo pure contract
 //@ call Buffer.WriteByte#1 assert [C06] $arg1 == a.Code && (a.Code != 0 || a.Properties != nil) && bufw.$w == 0 && bufw.$r == 0
 //@ call FixHeader.Pack#1 assert [C06] a.FixHeader.PacketType == 15 && a.FixHeader.Flags == 0 && a.FixHeader.RemainLength == bufw.$w - bufw.$r && bufw.$r == 0
 //@ call FixHeader.Pack#1 assert [C06] (a.Code == 0 && a.Properties == nil ==> a.FixHeader.RemainLength == 0) && (a.Code != 0 || a.Properties != nil ==> a.FixHeader.RemainLength >= 1 && bufw.$data[0] == a.Code)
@@ -778,7 +845,7 @@ package packets
 //@ props C06
 //@ requires [C06] c != nil && w != nil
 //@ modifies c.FixHeader, heap, ghost(w.$in)
-//@ abstract call Buffer).WriteTo pure
+//@ abstract call Buffer).WriteTo pure contract
 // the protocol name goes out as a length-prefixed string: its two length bytes say how long it is
 //@ call Buffer.WriteByte#1 assert [C06] $arg1 == c.ProtocolLevel && bufw.$r == 0 && bufw.$w == 2 + len(c.ProtocolName) && bufw.$data[0] == byte(uint16(len(c.ProtocolName)) >> 8) && bufw.$data[1] == byte(uint16(len(c.ProtocolName))) && (forall k int :: 0 <= k && k < len(c.ProtocolName) ==> bufw.$data[2 + k] == c.ProtocolName[k])
 //@ call Buffer.Write#1 assert [C06] len(p) == 1 && p[0] == connFlags(c.UsernameFlag, c.PasswordFlag, c.WillRetain, c.WillQos, c.WillFlag, c.CleanStart) && bufw.$w == 3 + len(c.ProtocolName)
